@@ -354,11 +354,16 @@ def apply_real(w: World, op):
         raise core.Infra("unknown op %r" % (op,))
     except core.Infra:
         raise
-    except RecursionError:
-        return "err:RecursionError"
     except Exception as e:  # noqa
         import traceback
-        w.last_frames = tuple(f.name for f in traceback.extract_tb(e.__traceback__))
+        names = []
+        tb = e.__traceback__
+        while tb is not None and len(names) < 4000:
+            names.append(tb.tb_frame.f_code.co_name)
+            tb = tb.tb_next
+        w.last_frames = tuple(dict.fromkeys(names))
+        if isinstance(e, RecursionError):
+            return "err:RecursionError"
         c = err_class(e)
         return "err:Other" if c.startswith("Other") else "err:" + c
 
